@@ -477,7 +477,7 @@ func (x *Exec) updatePath(cur Term, path []pathSel, v Term) Term {
 }
 
 func fieldSV(t types.Type, u *types.Struct, i int) string {
-	return "H." + shortType(t.String()) + "." + u.Field(i).Name()
+	return "H." + shortType(canonType(t).String()) + "." + u.Field(i).Name()
 }
 
 func (x *Exec) fieldLoc(ref Term, st types.Type, i int) *Loc {
